@@ -307,6 +307,12 @@ Definition mk_split (k : split_kind) (ns nn : Z) (isint : bool) : split :=
   {| sp_kind := k; sp_num_single := ns; sp_num_none := nn; sp_num_squash := 0; sp_isint := isint; sp_has_bool := false;
      sp_nd := false; sp_split_dim := 0; sp_mask_loc := 0%nat; sp_masks := [] |}.
 
+Definition mk_split2 (k : split_kind) (ns nn nsq : Z) (isint : bool) : split :=
+  {| sp_kind := k; sp_num_single := ns; sp_num_none := nn; sp_num_squash := nsq; sp_isint := isint; sp_has_bool := false;
+     sp_nd := false; sp_split_dim := 0; sp_mask_loc := 0%nat; sp_masks := [] |}.
+Lemma mk_split_eq k ns nn isint : mk_split k ns nn isint = mk_split2 k ns nn 0 isint.
+Proof. reflexivity. Qed.
+
 Lemma post_noell post : Forall (post_item) post -> noell post.
 Proof. intros H. eapply Forall_impl; [|exact H]. intros [] Hb; cbn in *; tauto || reflexivity. Qed.
 
@@ -400,28 +406,67 @@ Proof. intros H. cbn [at_]. rewrite H. reflexivity. Qed.
 Lemma shape_index idx m bs : shape_of m = Some bs -> shape_of (Index idx m) = res_shape idx bs.
 Proof. intros H. cbn [shape_of]. rewrite H. reflexivity. Qed.
 
+(* an index made of full slices only, legal on a shape of non-negative sizes, is the identity *)
+Lemma full_slices_id idx : forallb is_full_slice idx = true -> forall bs rs,
+  Forall (fun s => 0 <= s) bs -> res_shape idx bs = Some rs ->
+  rs = bs /\ forall r, src_of idx bs r = if in_range bs r then Some r else None.
+Proof.
+  induction idx as [|it idx IH]; intros HF bs rs Hnn H.
+  - cbn in H. inversion H. split; [reflexivity|]. intros r. reflexivity.
+  - cbn [forallb] in HF. apply andb_prop in HF. destruct HF as [Hit HF].
+    destruct it as [| [?|] [?|] [?|] | | | |]; cbn in Hit; try discriminate.
+    cbn [res_shape] in H. destruct bs as [|s bs]; [discriminate|]. cbn [step_of] in H.
+    change (1 <=? 0) with false in H. cbv iota in H.
+    inversion Hnn as [|? ? Hs Hnn']; subst.
+    assert (Hrl : range_len (py_indices None None 1 s) = s).
+    { unfold py_indices, adjust, range_len. cbn. destruct (0 <? s) eqn:E; [|lia]. rewrite Z.div_1_r. lia. }
+    assert (Hrn : forall x, range_nth (py_indices None None 1 s) x = x).
+    { intros x. unfold py_indices, adjust, range_nth. cbn. lia. }
+    rewrite Hrl in H.
+    destruct (res_shape idx bs) as [t|] eqn:Et; [|discriminate]. cbn [option_map] in H.
+    assert (Ers : rs = s :: t) by congruence. subst rs. clear H.
+    destruct (IH HF bs t Hnn' Et) as [Ht Hsrc]. subst t.
+    split; [reflexivity|].
+    intros r. cbn [src_of step_of]. destruct r as [|x r]; [reflexivity|].
+    change (1 <=? 0) with false. cbv iota. rewrite Hrl, Hrn. cbn [in_range].
+    destruct (in_dim x s) eqn:Ex; [|reflexivity]. cbn [andb]. rewrite Hsrc.
+    destruct (in_range bs r); reflexivity.
+Qed.
+
+Lemma full_slices_equiv idx m bs rs :
+  forallb is_full_slice idx = true -> Forall (fun s => 0 <= s) bs -> res_shape idx bs = Some rs ->
+  shape_of m = Some bs -> sound m bs -> equiv m (Index idx m).
+Proof.
+  intros HF Hnn Hrs Hs Hm. destruct (full_slices_id idx HF bs rs Hnn Hrs) as [E Hsrc]. subst rs. split.
+  - rewrite (shape_index _ _ _ Hs), Hrs. exact Hs.
+  - intros r. rewrite (at_index _ _ _ r Hs), Hsrc. destruct (in_range bs r) eqn:E; [reflexivity|].
+    cbn [opt_bind]. destruct (at_ m r) as [e|] eqn:Ea; [|reflexivity]. rewrite (Hm r e Ea) in E. discriminate.
+Qed.
+
 Section Members.
   Variable G : arr -> list item -> res arr.
 
-  Lemma m_getitem_equiv m sub x bs :
-    shape_of m = Some bs ->
+  Lemma m_getitem_equiv m sub x bs rs :
+    shape_of m = Some bs -> sound m bs -> Forall (fun s => 0 <= s) bs -> res_shape sub bs = Some rs ->
     (is_stack m = true -> G m sub = Ok x -> equiv x (Index sub m)) ->
     m_getitem G m sub = Ok x -> equiv x (Index sub m).
   Proof.
-    intros Hs HG. unfold m_getitem. destruct (is_stack m) eqn:E; [intros H; apply HG; auto|].
-    rewrite Hs. destruct bs as [|? ?].
-    - destruct (rank0_index_ok sub); intros H; inversion H. apply equiv_refl.
-    - intros H; inversion H. apply equiv_refl.
+    intros Hs Hm Hnn Hrs HG. unfold m_getitem. destruct (is_stack m) eqn:E; [intros H; apply HG; auto|].
+    destruct (forallb is_full_slice sub) eqn:EF.
+    - intros H. inversion H; subst. eapply full_slices_equiv; eauto.
+    - rewrite Hs. destruct bs as [|? ?].
+      + destruct (rank0_index_ok sub); intros H; inversion H. apply equiv_refl.
+      + intros H; inversion H. apply equiv_refl.
   Qed.
 
-  Lemma m_get_or_self_equiv m sub x bs :
-    shape_of m = Some bs -> sound m bs ->
+  Lemma m_get_or_self_equiv m sub x bs rs :
+    shape_of m = Some bs -> sound m bs -> Forall (fun s => 0 <= s) bs -> res_shape sub bs = Some rs ->
     (is_stack m = true -> G m sub = Ok x -> equiv x (Index sub m)) ->
     m_get_or_self G m sub = Ok x -> equiv x (Index sub m).
   Proof.
-    intros Hs Hm HG. unfold m_get_or_self. destruct sub as [|it sub]; cbn [is_empty_idx].
+    intros Hs Hm Hnn Hrs HG. unfold m_get_or_self. destruct sub as [|it sub]; cbn [is_empty_idx].
     - intros H. inversion H; subst. apply (index_nil_equiv x bs); assumption.
-    - apply (m_getitem_equiv m (it :: sub) x bs); assumption.
+    - apply (m_getitem_equiv m (it :: sub) x bs rs); assumption.
   Qed.
 End Members.
 
@@ -577,6 +622,7 @@ Section OneLevel.
   Hypothesis Hne : parts <> [].
   Hypothesis Hshape : Forall (fun p => shape_of p = Some bs) parts.
   Hypothesis Hsound : Forall (fun p => sound p bs) parts.
+  Hypothesis Hnn : Forall (fun s => 0 <= s) bs.
   Variable Psub : list item -> Prop.     (* what is known of the sub-indices handed to nested lazy members *)
   Hypothesis HG : forall m sub x rs, In m parts -> is_stack m = true -> Psub sub -> res_shape sub bs = Some rs ->
                                      G m sub = Ok x -> equiv x (Index sub m).
@@ -601,9 +647,11 @@ Section OneLevel.
       inversion H as [Hxs]. destruct (IH xs' Er) as [ms [F1 F2]].
       exists (m :: ms). split; constructor; auto.
       pose proof (member_In _ _ _ Em) as Hin.
-      apply (m_get_or_self_equiv G m sub x bs).
+      apply (m_get_or_self_equiv G m sub x bs rs0).
       + apply (proj1 (Forall_forall _ _) Hshape). exact Hin.
       + apply (proj1 (Forall_forall _ _) Hsound). exact Hin.
+      + exact Hnn.
+      + exact Hrs0.
       + intros. eapply HG; eauto.
       + exact Ex.
   Qed.
@@ -625,15 +673,19 @@ Section OneLevel.
   Lemma skipn_app_exact {A} (a b : list A) : skipn (List.length a) (a ++ b) = b.
   Proof. rewrite skipn_app, skipn_all, Nat.sub_diag. reflexivity. Qed.
 
-  (* the slice case: lazy[pre, a:b:c, post] *)
-  Theorem getitem_slice pre a b c post a' rsd :
-    basic pre -> consumed pre = sd -> Forall post_item post -> Psub (pre ++ post) ->
+  (* the slice case: lazy[pre, a:b:c, post]; what is needed of the prefix is what _split_index returns for it and
+     that  stack_dim - num_single + num_none - num_squash  counts the result dims it produces *)
+  Theorem getitem_slice_core pre a b c post a' rsd ns nn nsq :
+    noell pre -> consumed pre = sd -> Forall post_item post -> Psub (pre ++ post) ->
+    split_index sd (List.length parts) shape (pre ++ ISl a b c :: post) =
+      Ok (mk_split2 (KDict (map (fun j => (j, pre ++ post)) (range_elems (py_indices a b (step_of c) (Z.of_nat (List.length parts))))))
+                    ns nn nsq false) ->
+    Z.of_nat sd - ns + nn - nsq = Z.of_nat (rdims_l pre) ->
     res_shape (pre ++ ISl a b c :: post) shape = Some rsd ->          (* the index is legal on the dense stack *)
     getitem_body G self sd bs0 parts shape (pre ++ ISl a b c :: post) = Ok a' ->
     equiv a' (Index (pre ++ ISl a b c :: post) self).
   Proof.
-    intros HB HC HP HPs Hlegal H.
-    assert (HNpre : noell pre) by (apply basic_noell; exact HB).
+    intros HNpre HC HP HPs Hsplit Hnsdeq Hlegal H.
     assert (HCpre : consumed pre = List.length S1) by lia.
     (* decompose the legality of the index *)
     unfold shape in Hlegal. rewrite (res_shape_app pre HNpre S1 _ _ HCpre) in Hlegal.
@@ -641,15 +693,11 @@ Section OneLevel.
     cbn [res_shape] in Hlegal. destruct (step_of c <=? 0) eqn:Hstep; [discriminate|].
     destruct (res_shape post S2) as [rb|] eqn:Erb; [|discriminate]. cbn [option_map] in Hlegal.
     unfold getitem_body in H.
-    destruct ((1 <? List.length (filter is_adv (pre ++ ISl a b c :: post)))%nat) eqn:HA.
-    { exfalso. unfold split_index in H.
-      rewrite convert_ellipsis_noell in H by (apply noell_app; [exact HNpre|constructor; [reflexivity|apply post_noell; exact HP]]).
-      cbn [rbind] in H. rewrite HA in H. discriminate. }
-    rewrite (split_index_slice sd (List.length parts) shape pre a b c post HB HC HP HA) in H by lia.
-    cbn [rbind mk_split sp_has_bool sp_nd sp_kind sp_isint sp_num_single sp_num_none sp_num_squash] in H.
+    rewrite Hsplit in H.
+    cbn [rbind mk_split2 sp_has_bool sp_nd sp_kind sp_isint sp_num_single sp_num_none sp_num_squash] in H.
     change (Z.of_nat (List.length parts)) with (lenZ parts) in *.
     set (t := py_indices a b (step_of c) (lenZ parts)) in *.
-    rewrite Z.sub_0_r in H. rewrite <- HC in H at 1. rewrite (nsd_basic pre HB) in H.
+    rewrite Hnsdeq in H.
     unfold nonneg_nat in H. replace (Z.of_nat (rdims_l pre) <? 0) with false in H by lia. cbn [rbind] in H.
     rewrite Nat2Z.id in H. set (nsd := rdims_l pre) in *.
     apply rbind_ok in H. destruct H as [xs [Er H]].
@@ -695,6 +743,27 @@ Section OneLevel.
       + apply nth_error_None in Ek. rewrite (skipn_all2 r) by exact Ek. cbn [src_of].
         destruct (src_of pre S1 (firstn nsd r)); [|reflexivity]. destruct (step_of c <=? 0); reflexivity.
   Qed.
+  Theorem getitem_slice pre a b c post a' rsd :
+    basic pre -> consumed pre = sd -> Forall post_item post -> Psub (pre ++ post) ->
+    res_shape (pre ++ ISl a b c :: post) shape = Some rsd ->          (* the index is legal on the dense stack *)
+    getitem_body G self sd bs0 parts shape (pre ++ ISl a b c :: post) = Ok a' ->
+    equiv a' (Index (pre ++ ISl a b c :: post) self).
+  Proof.
+    intros HB HC HP HPs Hlegal H.
+    assert (HNpre : noell pre) by (apply basic_noell; exact HB).
+    destruct ((1 <? List.length (filter is_adv (pre ++ ISl a b c :: post)))%nat) eqn:HA.
+    { exfalso. unfold getitem_body, split_index in H.
+      rewrite convert_ellipsis_noell in H by (apply noell_app; [exact HNpre|constructor; [reflexivity|apply post_noell; exact HP]]).
+      cbn [rbind] in H. rewrite HA in H. discriminate. }
+    destruct (step_of c =? 0) eqn:Hst.
+    { exfalso. unfold shape in Hlegal. rewrite (res_shape_app pre HNpre S1 _ _ ltac:(lia)) in Hlegal.
+      destruct (res_shape pre S1); [|discriminate]. cbn [res_shape] in Hlegal.
+      replace (step_of c <=? 0) with true in Hlegal by lia. discriminate. }
+    eapply (getitem_slice_core pre a b c post a' rsd (count_int pre) (count_none pre) 0); eauto.
+    - rewrite (split_index_slice sd (List.length parts) shape pre a b c post HB HC HP HA Hst). rewrite mk_split_eq. reflexivity.
+    - rewrite Z.sub_0_r. rewrite <- HC at 1. apply nsd_basic. exact HB.
+  Qed.
+
   Lemma norm_i_range i s i' : norm_i i s = Some i' -> in_dim i' s = true.
   Proof.
     unfold norm_i, in_dim. destruct ((0 <=? i) && (i <? s)) eqn:E1.
@@ -703,37 +772,37 @@ Section OneLevel.
   Qed.
 
   (* the int case: lazy[pre, j, post] is member j indexed by the rest *)
-  Theorem getitem_int pre j post a' rsd :
-    basic pre -> consumed pre = sd -> Forall post_item post -> Psub (pre ++ post) ->
+  Theorem getitem_int_core pre j post a' rsd ns nn nsq :
+    noell pre -> consumed pre = sd -> Forall post_item post -> Psub (pre ++ post) ->
+    (forall j', norm_i j (lenZ parts) = Some j' ->
+       split_index sd (List.length parts) shape (pre ++ IInt j :: post) = Ok (mk_split2 (KDict [(j', pre ++ post)]) ns nn nsq true)) ->
     res_shape (pre ++ IInt j :: post) shape = Some rsd ->
     getitem_body G self sd bs0 parts shape (pre ++ IInt j :: post) = Ok a' ->
     equiv a' (Index (pre ++ IInt j :: post) self).
   Proof.
-    intros HB HC HP HPs Hlegal H.
-    assert (HNpre : noell pre) by (apply basic_noell; exact HB).
+    intros HNpre HC HP HPs Hsplit Hlegal H.
     assert (HCpre : consumed pre = List.length S1) by lia.
     unfold shape in Hlegal. rewrite (res_shape_app pre HNpre S1 _ _ HCpre) in Hlegal.
     destruct (res_shape pre S1) as [ra|] eqn:Era; [|discriminate].
     cbn [res_shape] in Hlegal. destruct (norm_i j (lenZ parts)) as [j'|] eqn:Ej; [|discriminate].
     destruct (res_shape post S2) as [rb|] eqn:Erb; [|discriminate]. cbn [option_map] in Hlegal.
     unfold getitem_body in H.
-    destruct ((1 <? List.length (filter is_adv (pre ++ IInt j :: post)))%nat) eqn:HA.
-    { exfalso. unfold split_index in H.
-      rewrite convert_ellipsis_noell in H by (apply noell_app; [exact HNpre|constructor; [reflexivity|apply post_noell; exact HP]]).
-      cbn [rbind] in H. rewrite HA in H. discriminate. }
-    rewrite (split_index_int sd (List.length parts) shape pre j j' post HB HC HP HA Ej) in H.
-    cbn [rbind mk_split sp_has_bool sp_nd sp_kind sp_isint] in H.
+    rewrite (Hsplit j' eq_refl) in H.
+    cbn [rbind mk_split2 sp_has_bool sp_nd sp_kind sp_isint] in H.
     apply rbind_ok in H. destruct H as [m [Em Hx]].
     pose proof (norm_i_range _ _ _ Ej) as Hj'.
     rewrite (member_inrange _ _ Hj') in Em.
     destruct (nthZ parts j') as [m'|] eqn:Em'; cbn in Em; [|discriminate]. inversion Em; subst m'. clear Em.
     pose proof (nthZ_In _ _ _ Em') as Hin.
     assert (Hm : shape_of m = Some bs) by (apply (proj1 (Forall_forall _ _) Hshape); exact Hin).
+    assert (Hrs : res_shape (pre ++ post) bs = Some (ra ++ rb)).
+    { unfold bs. rewrite (res_shape_app pre HNpre S1 S2 post HCpre), Era, Erb. reflexivity. }
     assert (Heq : equiv a' (Index (pre ++ post) m)).
-    { apply (m_get_or_self_equiv G m (pre ++ post) a' bs Hm).
+    { apply (m_get_or_self_equiv G m (pre ++ post) a' bs (ra ++ rb) Hm).
       - apply (proj1 (Forall_forall _ _) Hsound). exact Hin.
+      - exact Hnn.
+      - exact Hrs.
       - intros. eapply (HG m (pre ++ post) a' (ra ++ rb)); eauto.
-        unfold bs. rewrite (res_shape_app pre HNpre S1 S2 post HCpre), Era, Erb. reflexivity.
       - exact Hx. }
     apply (equiv_trans _ _ _ Heq). clear Heq Hx.
     pose proof shape_self as Hself.
@@ -750,6 +819,22 @@ Section OneLevel.
       assert (La1 : List.length a1 = sd) by (rewrite (src_of_length pre HNpre S1 _ a1 HCpre Ea1); exact HS1).
       rewrite <- La1. rewrite nth_error_app_mid, Em', remove_at_app. reflexivity.
   Qed.
+  Theorem getitem_int pre j post a' rsd :
+    basic pre -> consumed pre = sd -> Forall post_item post -> Psub (pre ++ post) ->
+    res_shape (pre ++ IInt j :: post) shape = Some rsd ->
+    getitem_body G self sd bs0 parts shape (pre ++ IInt j :: post) = Ok a' ->
+    equiv a' (Index (pre ++ IInt j :: post) self).
+  Proof.
+    intros HB HC HP HPs Hlegal H.
+    assert (HNpre : noell pre) by (apply basic_noell; exact HB).
+    destruct ((1 <? List.length (filter is_adv (pre ++ IInt j :: post)))%nat) eqn:HA.
+    { exfalso. unfold getitem_body, split_index in H.
+      rewrite convert_ellipsis_noell in H by (apply noell_app; [exact HNpre|constructor; [reflexivity|apply post_noell; exact HP]]).
+      cbn [rbind] in H. rewrite HA in H. discriminate. }
+    eapply (getitem_int_core pre j post a' rsd (count_int pre) (count_none pre) 0); eauto.
+    intros j' Ej. rewrite (split_index_int sd (List.length parts) shape pre j j' post HB HC HP HA Ej). rewrite mk_split_eq. reflexivity.
+  Qed.
+
   Lemma nthZ_seq n k : nthZ (map Z.of_nat (seq 0 n)) k = if in_dim k (Z.of_nat n) then Some k else None.
   Proof.
     unfold nthZ, in_dim. destruct (k <? 0) eqn:E; [replace (0 <=? k) with false by lia; reflexivity|].
@@ -888,6 +973,10 @@ Lemma wf_forall_shapes parts bs : wf_forall parts bs -> Forall (fun p => shape_o
 Proof.
   intros H. apply Forall_forall. intros p Hp. apply wf_shape. eapply wf_forall_In; eauto.
 Qed.
+Lemma wf_forall_nonneg parts bs : parts <> [] -> wf_forall parts bs -> Forall (fun s => 0 <= s) bs.
+Proof.
+  intros Hne H. destruct parts as [|p parts]; [congruence|]. inversion H; subst. eapply wf_nonneg; eauto.
+Qed.
 Lemma wf_forall_sound parts bs : wf_forall parts bs -> Forall (fun p => sound p bs) parts.
 Proof.
   intros H. apply Forall_forall. intros p Hp r e. apply at_sound. eapply wf_forall_In; eauto.
@@ -902,6 +991,7 @@ Proof.
   cbn [lz_getitem] in H. inversion Hwf as [j bs' E1 E2|sd bs0 parts bs' Hne Hparts Hsd E1 E2]; subst.
   - inversion H. apply equiv_refl.
   - rewrite (wf_shape _ _ Hwf) in H.
+    pose proof (wf_forall_nonneg _ _ Hne Hparts) as Hnn.
     destruct (split_at sd bs' Hsd) as [S1 [S2 [Ebs LS1]]]. subst bs'.
     assert (Eins : insert_at sd (lenZ parts) (S1 ++ S2) = S1 ++ lenZ parts :: S2) by (rewrite <- LS1; apply insert_at_app).
     rewrite Eins in H, Hlegal.
@@ -910,12 +1000,12 @@ Proof.
     { intros m sub x rs Hin _ Hbs Hrs Hx. eapply (IH m (S1 ++ S2) sub x rs); eauto. eapply wf_forall_In; eauto. }
     destruct (basic_cases idx HB sd) as [Hs|[pre [x [post [E [Hp [Hc [Hpo Hx]]]]]]]].
     + eapply (getitem_short (lz_getitem f) sd bs0 parts S1 S2 LS1 Hne (wf_forall_shapes _ _ Hparts)
-                (wf_forall_sound _ _ Hparts) basic HGm idx a' rsd); eauto.
+                (wf_forall_sound _ _ Hparts) Hnn basic HGm idx a' rsd); eauto.
     + subst idx. destruct Hx as [[j Ej]|[a [b [c Ec]]]]; subst x.
       * eapply (getitem_int (lz_getitem f) sd bs0 parts S1 S2 LS1 Hne (wf_forall_shapes _ _ Hparts)
-                  (wf_forall_sound _ _ Hparts) basic HGm pre j post a' rsd); eauto using basic_post, basic_app.
+                  (wf_forall_sound _ _ Hparts) Hnn basic HGm pre j post a' rsd); eauto using basic_post, basic_app.
       * eapply (getitem_slice (lz_getitem f) sd bs0 parts S1 S2 LS1 Hne (wf_forall_shapes _ _ Hparts)
-                  (wf_forall_sound _ _ Hparts) basic HGm pre a b c post a' rsd); eauto using basic_post, basic_app.
+                  (wf_forall_sound _ _ Hparts) Hnn basic HGm pre a b c post a' rsd); eauto using basic_post, basic_app.
 Qed.
 
 (* one advanced index (integer tensor of any rank, mask of any rank >= 1) AFTER the stack dim, flat stack of plain members *)
@@ -931,6 +1021,8 @@ Proof.
   { eapply Forall_impl; [|exact Hparts]. intros p [Hw _]. apply wf_shape. exact Hw. }
   assert (Hso : Forall (fun p => sound p bs) parts).
   { eapply Forall_impl; [|exact Hparts]. intros p [Hw _] r e. apply at_sound. exact Hw. }
+  assert (Hnn : Forall (fun s => 0 <= s) bs).
+  { destruct parts as [|p0 ps]; [congruence|]. inversion Hparts as [|? ? [Hw _] _]; subst. eapply wf_nonneg; eauto. }
   cbn [lz_getitem] in H. rewrite (shape_of_stack sd bs0 parts bs Hne Hsh Hsd) in H.
   destruct (split_at sd bs Hsd) as [S1 [S2 [Ebs LS1]]]. subst bs.
   assert (Eins : insert_at sd (lenZ parts) (S1 ++ S2) = S1 ++ lenZ parts :: S2) by (rewrite <- LS1; apply insert_at_app).
@@ -939,6 +1031,6 @@ Proof.
                                   lz_getitem fuel m sub = Ok y -> equiv y (Index sub m)).
   { intros m sub y rs Hin Hst. exfalso. destruct (proj1 (Forall_forall _ _) Hparts m Hin) as [_ Hf]. congruence. }
   destruct Hx as [[j Ej]|[a [b [c Ec]]]]; subst x.
-  - eapply (getitem_int (lz_getitem fuel) sd bs0 parts S1 S2 LS1 Hne Hsh Hso (fun _ => True) HGm pre j post a' rsd); eauto.
-  - eapply (getitem_slice (lz_getitem fuel) sd bs0 parts S1 S2 LS1 Hne Hsh Hso (fun _ => True) HGm pre a b c post a' rsd); eauto.
+  - eapply (getitem_int (lz_getitem fuel) sd bs0 parts S1 S2 LS1 Hne Hsh Hso Hnn (fun _ => True) HGm pre j post a' rsd); eauto.
+  - eapply (getitem_slice (lz_getitem fuel) sd bs0 parts S1 S2 LS1 Hne Hsh Hso Hnn (fun _ => True) HGm pre a b c post a' rsd); eauto.
 Qed.
